@@ -403,6 +403,7 @@ struct Prog {
   bool broken = false;   // an instruction with mismatching sizes was appended
   int appended = 0;
   std::shared_ptr<Twin> pending_twin;  // reference for the edited program; takes over at the next compile
+  std::string pending_spec;            // ... and its spec
                                        // (until then the code compiled before the edit is what runs)
 };
 struct CodeObj {
@@ -900,7 +901,7 @@ static void hist_run(const std::vector<std::string> &plan, Child &c) {
           p.target = tname;
           p.runnable = !fatal;
           p.fn = Func();
-          if (p.pending_twin) { p.twin = p.pending_twin; p.pending_twin.reset(); }
+          if (p.pending_twin) { p.twin = p.pending_twin; p.pending_twin.reset(); p.meta.spec = p.pending_spec; p.pending_spec.clear(); }
           if (st.O("class")) {
             if (!fatal && !code)
               c.violation("classification", "nonfatal-without-code", strf("compile of %s returned %#x (not fatal) but the program has no code object to emulate", p.meta.name.c_str(), res));
@@ -980,11 +981,11 @@ static void hist_run(const std::vector<std::string> &plan, Child &c) {
           if (xs) cp = dsize == 1 ? "xorb" : dsize == 2 ? "xorw" : dsize == 4 ? "xorl" : "xorq";
           orc_program_append_2(p.p, cp, 0, ORC_VAR_D1, ORC_VAR_D1, xs, 0);
           // the twin is shared with code objects taken earlier: those keep the old reference
+          // (the spec of the edited program carries every edit made so far, so that the twin and a pristine
+          // process can rebuild exactly this program)
+          p.pending_spec = (p.pending_spec.empty() ? p.meta.spec : p.pending_spec) + strf("+%s.%d", cp, xs);
           ProgMeta tm;
-          OrcProgram *t2 = build_program(p.meta.spec, p.meta.name + "_twin", &tm);
-          // replay every edit made so far on the fresh twin (same opcode and operands as recorded in the program)
-          for (int k = tm.n_insns; k < p.p->n_insns; k++)
-            orc_program_append_2(t2, p.p->insns[k].opcode->name, 0, ORC_VAR_D1, ORC_VAR_D1, p.p->insns[k].src_args[1], 0);
+          OrcProgram *t2 = build_program(p.pending_spec, p.meta.name + "_twin", &tm);
           orc_program_compile_full(t2, nullptr, 0);
           p.pending_twin = std::make_shared<Twin>(t2);
           p.appended++;
